@@ -20,27 +20,29 @@ MaxTrials == IF "PROTO_N" \in DOMAIN IOEnv THEN (IF IOEnv.PROTO_N = "4" THEN 4 E
 
 Drivers == {"MonteCarlo", "Canonical", "HamiltonianCanonical", "Isobaric", "Isotension", "GrandCanonical"}
 \* entries of the move table per driver: "user" always; a shipped structural move where the driver has one
-EntriesOf(d) == {"user"} \cup (IF d = "GrandCanonical" THEN {"exch"} ELSE {}) \cup (IF d \in {"Isobaric", "Isotension"} THEN {"cell"} ELSE {})
+\* in the cell-changing ensembles the table also holds a second USER move W, scheduled under "shear": it changes the
+\* SHAPE of the cell at constant volume (what a user-defined cell move of an isotension run naturally does)
+EntriesOf(d) == {"user"} \cup (IF d = "GrandCanonical" THEN {"exch"} ELSE {}) \cup (IF d \in {"Isobaric", "Isotension"} THEN {"cell", "shear"} ELSE {})
+UserEntries == {"user", "shear"}
+MoveOf(e) == IF e = "user" THEN "U" ELSE "W"
 
 \* distinct user move objects in the table: the grand-canonical table holds a second user move V that is a
 \* value-equal twin of U (same configuration, different object); it is never scheduled but must be notified
-UserMoves(d) == IF d = "GrandCanonical" THEN <<"U", "V">> ELSE <<"U">>
+UserMoves(d) == IF d = "GrandCanonical" THEN <<"U", "V">> ELSE IF d \in {"Isobaric", "Isotension"} THEN <<"U", "W">> ELSE <<"U">>
+CellChanging == {"cell", "shear"}
 
 TrialLog(d, t) ==
-    (IF t.entry = "user" THEN << <<"call", "U">> >> ELSE <<>>)
+    (IF t.entry \in UserEntries THEN << <<"call", MoveOf(t.entry)>> >> ELSE <<>>)
     \o (IF t.res THEN << <<"evaluate", t.entry>> >> ELSE <<>>)
     \o (IF t.acc /\ t.entry = "exch" THEN [i \in 1..Len(UserMoves(d)) |-> <<"on_atoms_changed", UserMoves(d)[i]>>] ELSE <<>>)
-    \o (IF t.acc /\ t.entry = "cell" THEN [i \in 1..Len(UserMoves(d)) |-> <<"on_cell_changed", UserMoves(d)[i]>>] ELSE <<>>)
+    \o (IF t.acc /\ t.entry \in CellChanging THEN [i \in 1..Len(UserMoves(d)) |-> <<"on_cell_changed", UserMoves(d)[i]>>] ELSE <<>>)
 \* to_dict of the simulation walks the table entry by entry: move, then its criteria
-NEntries(d) == Cardinality(EntriesOf(d)) + Len(UserMoves(d)) - 1
-SerLog(d) == << <<"to_dict", "U">>, <<"to_dict", "criteria">> >>
-             \o (IF Len(UserMoves(d)) > 1 THEN << <<"to_dict", "V">>, <<"to_dict", "criteria">> >> ELSE <<>>)
-             \o [i \in 1..(Cardinality(EntriesOf(d)) - 1) |-> <<"to_dict", "criteria">>]
-             \o << <<"from_dict", "U">>, <<"from_dict", "criteria">> >>
-             \o (IF Len(UserMoves(d)) > 1 THEN << <<"from_dict", "V">>, <<"from_dict", "criteria">> >> ELSE <<>>)
-             \o [i \in 1..(Cardinality(EntriesOf(d)) - 1) |-> <<"from_dict", "criteria">>]
+NShipped(d) == Cardinality(EntriesOf(d) \ UserEntries)
+SerHalf(d, what) == [i \in 1..(2 * Len(UserMoves(d))) |-> IF i % 2 = 1 THEN <<what, UserMoves(d)[(i + 1) \div 2]>> ELSE <<what, "criteria">>]
+                    \o [i \in 1..NShipped(d) |-> <<what, "criteria">>]
+SerLog(d) == SerHalf(d, "to_dict") \o SerHalf(d, "from_dict")
 
-Trial == [entry : {"user", "exch", "cell"}, res : BOOLEAN, acc : BOOLEAN]
+Trial == [entry : {"user", "exch", "cell", "shear"}, res : BOOLEAN, acc : BOOLEAN]
 
 VARIABLES driver, pc, cur, log, hist, trials, serialized
 
@@ -51,14 +53,14 @@ Init == /\ driver \in Drivers /\ pc = "idle" /\ cur = [entry |-> "user", res |->
 
 Yield(t) == /\ pc = "idle" /\ trials < MaxTrials
             /\ t.entry \in EntriesOf(driver)
-            /\ (t.entry # "user" => t.res)                 \* the shipped moves of the table always succeed here
+            /\ (t.entry \notin UserEntries => t.res)        \* the shipped moves of the table always succeed here
             /\ (~t.res => ~t.acc)
             /\ cur' = t /\ pc' = "yielded"
             /\ UNCHANGED <<driver, log, hist, trials, serialized>>
 
 \* the driver calls the move; only calls on USER objects are logged
 Call == /\ pc = "yielded"
-        /\ log' = IF cur.entry = "user" THEN Append(log, <<"call", "U">>) ELSE log
+        /\ log' = IF cur.entry \in UserEntries THEN Append(log, <<"call", MoveOf(cur.entry)>>) ELSE log
         /\ pc' = IF cur.res THEN "called_true" ELSE "called_false"
         /\ UNCHANGED <<driver, cur, hist, trials, serialized>>
 
@@ -72,7 +74,7 @@ Evaluate == /\ pc = "called_true"
 \* distinct move object of the table (here: to the user move)
 Save == /\ pc = "accepted"
         /\ log' = CASE cur.entry = "exch" -> log \o [i \in 1..Len(UserMoves(driver)) |-> <<"on_atoms_changed", UserMoves(driver)[i]>>]
-                    [] cur.entry = "cell" -> log \o [i \in 1..Len(UserMoves(driver)) |-> <<"on_cell_changed", UserMoves(driver)[i]>>]
+                    [] cur.entry \in CellChanging -> log \o [i \in 1..Len(UserMoves(driver)) |-> <<"on_cell_changed", UserMoves(driver)[i]>>]
                     [] OTHER -> log
         /\ hist' = Append(hist, <<cur.entry, "acc">>) /\ trials' = trials + 1 /\ pc' = "idle"
         /\ UNCHANGED <<driver, cur, serialized>>
@@ -105,7 +107,7 @@ C20_HistoryLength == Len(hist) = trials
 Count(l, a) == Cardinality({i \in 1..Len(l) : l[i][1] = a})
 C20_NotifiedPerAcceptedChange ==
     pc = "idle" => /\ Count(log, "on_atoms_changed") = Len(UserMoves(driver)) * Cardinality({i \in 1..Len(hist) : hist[i] = <<"exch", "acc">>})
-                   /\ Count(log, "on_cell_changed") = Len(UserMoves(driver)) * Cardinality({i \in 1..Len(hist) : hist[i] = <<"cell", "acc">>})
+                   /\ Count(log, "on_cell_changed") = Len(UserMoves(driver)) * Cardinality({i \in 1..Len(hist) : hist[i][1] \in CellChanging /\ hist[i][2] = "acc"})
 C20_OneEvaluatePerAttempt ==
     pc = "idle" => Count(log, "evaluate") = Cardinality({i \in 1..Len(hist) : hist[i][2] # "none"})
 
@@ -115,7 +117,7 @@ Behaviours(d, k) ==
     IF k = 0 THEN {<<>>}
     ELSE Behaviours(d, k - 1) \cup
          {Append(b, t) : b \in {x \in Behaviours(d, k - 1) : Len(x) = k - 1},
-                         t \in {x \in Trial : x.entry \in EntriesOf(d) /\ (x.entry # "user" => x.res) /\ (~x.res => ~x.acc)}}
+                         t \in {x \in Trial : x.entry \in EntriesOf(d) /\ (x.entry \notin UserEntries => x.res) /\ (~x.res => ~x.acc)}}
 RECURSIVE ExpectedLog(_, _, _, _)
 ExpectedLog(d, b, s, i) ==
     IF i > Len(b) THEN <<>>
